@@ -84,6 +84,9 @@ type c13Pt struct {
 	Bits string `json:"bits"`
 	V    string `json:"v"`
 	Text string `json:"text"`
+	// who wrote the point; the rule does not look at it (a set-value action's output carries the rule's own id
+	// and may well be watched by one of the rule's conditions), so the model has no such field
+	Origin string `json:"origin,omitempty"`
 	// kind "config", points of type start / end only: Text is recomputed when the case
 	// is run as the current UTC time plus this many minutes
 	Off *int `json:"off,omitempty"`
@@ -283,7 +286,7 @@ func c13FromRule(r client.Rule) *c13Rule {
 func c13ToPoints(pts []c13Pt, loc *time.Location) data.Points {
 	ret := data.Points{}
 	for _, p := range pts {
-		ret = append(ret, data.Point{Type: p.Type, Key: p.Key, Time: time.Unix(0, p.Time).In(loc), Value: c13Float(p.Bits), Text: p.Text})
+		ret = append(ret, data.Point{Type: p.Type, Key: p.Key, Time: time.Unix(0, p.Time).In(loc), Value: c13Float(p.Bits), Text: p.Text, Origin: p.Origin})
 	}
 	return ret
 }
@@ -584,6 +587,12 @@ func c13GenPoint(r *rand.Rand, rule *c13Rule) c13Pt {
 	}
 	v := c13Vals[r.Intn(len(c13Vals))]
 	p.Text = c13Pick(r, c13Texts)
+	switch r.Intn(6) {
+	case 0:
+		p.Origin = rule.ID // written by the rule itself (the output of one of its own actions, fed back)
+	case 1:
+		p.Origin = c13Pick(r, []string{"user-x", "parent", "c0"})
+	}
 	if len(rule.Conds) > 0 && r.Intn(10) < 8 {
 		// aim at one of the conditions: value next to its threshold, text related to its text
 		c := rule.Conds[r.Intn(len(rule.Conds))]
